@@ -1,5 +1,7 @@
 import Zc.Proofs.LinkConverge
 import Zc.Proofs.LinkBridge
+import Zc.Proofs.LinkBridgeK2
+import Zc.Proofs.LinkBridgeK1
 import Zc.GenFacts.Link
 /-! # C07 — end-to-end discovery converges to the set of registered services
 
@@ -185,29 +187,62 @@ theorem C07_K2l_from_C08_partial (lower : String → String) (N : Bridge.Naming)
     K2l Cfg.paper (Bridge.events lower N steps) endT = true :=
   Bridge.K2l_of_run lower N steps T0 endT hrun hd hfair hopen
 
-/-- the contracts that are still hypotheses once K6 is discharged from the C08 model -/
+/-- **K2, safety half, from C08's host machine.**  On the projected trace of every disciplined timed run a PTR with TTL 0 is sent
+only within 250 ms after an `unreg` of its service.  The invariant (`Bridge.Inv2`) is the one C08's own theorems do not need: every
+record in the registry, the queues and the announcing tasks has a non-zero TTL (`Disc2`: services are registered with
+`other_ttl, host_ttl > 0`), and every goodbye task / close sequence descends from a step that took the service out of the
+registry (`Disc2`: `unregister` is called on registered names). -/
+theorem C07_K2s_from_C08 (lower : String → String) (N : Bridge.Naming) (hsv : Function.Injective N.svcId)
+    (steps : List Bridge.Step) (T0 : Int) (hrun : Bridge.IsRun lower Goodbye.Host.init T0 steps)
+    (hd : ∀ st ∈ steps, Bridge.Disc lower st ∧ Bridge.Disc2 lower st) :
+    K2s Cfg.paper (Bridge.events lower N steps) = true :=
+  Bridge.K2s_of_run lower N hsv steps T0 hrun hd
+
+/-- **K1 from the C08/C09 host machine — under the event-loop axiom** (partial).  The `register` / `update` blocks of
+`Zc.Goodbye.Host` spawn C09's `announceTask`; `C09_announce_*` say what one task step emits.  As for K2l, "three announcements are
+sent" is a liveness statement that the block machine does not make, so the event-loop axiom `Bridge.Fair` (a pending task due
+within the window is executed by a later step at its due time) and `Bridge.Open` are hypotheses.  The rest is proved: the registry
+entry of the service persists, under its info object, from the `register` / `update` step to each of the three task steps
+(`Bridge.Ent_along`: a step that removes or replaces it would be an `unreg` / `upd` event inside the window, which K1 excludes), so
+`registeredAs` holds when the task runs and the step emits `broadcastPkt s none true`, whose projection is exactly one PTR with
+TTL `other_ttl > 0` accompanied by SRV, TXT and an address (`Bridge.posFull_broadcast`).  API-discipline hypotheses, each a fact
+about how the calls are made and not about the responder: `Disc` (update with the registered type), `Disc2` (`other_ttl`,
+`host_ttl > 0`), `Disc3` (at least one address — **clause of K1 that does not follow otherwise**: a service registered without
+addresses is announced with PTR, SRV, TXT and an NSEC record only, which the link model does not count as a complete
+announcement), `DistinctCalls` (two calls for one service do not share an instant — the link model's `WF`), injective instance
+numbering. -/
+theorem C07_K1_from_C09_partial (lower : String → String) (N : Bridge.Naming) (hsv : Function.Injective N.svcId)
+    (steps : List Bridge.Step) (T0 endT : Int) (hrun : Bridge.IsRun lower Goodbye.Host.init T0 steps)
+    (hd : ∀ st ∈ steps, Bridge.Disc lower st ∧ Bridge.Disc2 lower st ∧ Bridge.Disc3 st)
+    (hfair : Bridge.Fair steps endT) (hopen : Bridge.Open steps) (hdist : Bridge.DistinctCalls lower N steps) :
+    K1 Cfg.paper (Bridge.events lower N steps) endT = true :=
+  Bridge.K1_of_run lower N hsv steps T0 endT hrun hd hfair hopen hdist
+
+/-- the contracts that are still hypotheses once K1, K2 and K6 are discharged from the C08/C09 model -/
 structure C07_ContractsFromModels (lower : String → String) (tr : Trace) (endT : Int) : Prop where
   wf : WF Cfg.paper tr endT = true
-  k1 : K1 Cfg.paper tr endT = true
-  k2 : K2 Cfg.paper tr endT = true
   k3 : K3 Cfg.paper tr endT = true
   k4 : K4 Cfg.paper tr endT = true
   k5 : K5 Cfg.paper tr endT = true
   k7 : K7 Cfg.paper tr endT = true
   k3b : K3b Cfg.paper tr endT = true
-  /-- instead of K6: every host's sends and `reg`/`unreg` events are those of a disciplined run of the C08 host machine -/
-  hosts : Bridge.GeneratedK6 lower tr
+  /-- instead of K1, K2 and K6: every host's sends and `reg` / `upd` / `unreg` events are those of a disciplined, fair run of the
+  C08/C09 host machine that is not closed before the end of the window (`Bridge.HostRun`), and what its broadcast tasks send is
+  multicast -/
+  hosts : Bridge.Hosts lower tr endT
+  /-- the route of a goodbye (the machine does not model routes): TTL-0 PTRs are multicast (C11) -/
+  byeMulticast : Bridge.ByeMulticast tr
 
-/-- **C07 with K6 discharged** (partial: WF, K1–K5, K3b remain monitored hypotheses; K6 is a theorem about the C08 host
-model).  Not yet discharged, and why: K2 (goodbyes) and K1 (announcements) are *liveness* clauses — "a datagram is sent at
-t + 125" — and the C08/C09 machines accept every list of enabled blocks, so a run in which a pending task step never happens is a
-run: they follow only under the event-loop axiom that a timer fires at its due time (DESIGN §4.7 `WFSched`), which those models
-do not state; C08_goodbyes / C09_announce_schedule give the schedule of the task, not its execution. -/
+/-- **C07 with K1, K2 and K6 discharged** (partial: WF, K3, K3b, K4, K5, K7 remain monitored hypotheses; K1, K2 and K6 are
+theorems about the C08/C09 host machine — K1 and K2's liveness half under the event-loop axiom `Fair`, which the block machines
+do not state). -/
 theorem C07_convergence_from_models_partial (lower : String → String) :
     C07_convergence (C07_ContractsFromModels lower) := by
   intro tr endT hc
+  have hg := Bridge.Hosts_Generated lower tr endT hc.hosts
   exact C07_convergence_partial tr endT
-    ⟨hc.wf, hc.k1, hc.k2, hc.k3, hc.k4, hc.k5, Bridge.K6_of_generated lower tr hc.hosts, hc.k7, hc.k3b⟩
+    ⟨hc.wf, Bridge.K1_of_hosts lower tr endT hc.hosts, Bridge.K2_of_generated lower tr endT hg hc.byeMulticast, hc.k3, hc.k4, hc.k5,
+     Bridge.K6_of_generated lower tr (Bridge.Generated_K6 lower tr endT hg), hc.k7, hc.k3b⟩
 
 /-- non-vacuity of the bridge: C08's example history (register, three announcements, a pointer answer queued in the protected
 queue, unregister 30 ms later, three goodbyes, the queue timer) is a timed run; its projection has a `reg` at 0, an `unreg`
@@ -233,7 +268,27 @@ example : C07_bridgeTrace.map (fun tr => (sends tr).map (fun sd =>
           (1380, [(0, true)])] := by decide
 example : C07_bridgeTrace.map (K6 Cfg.paper) = some true := by decide
 /-- … and the three goodbyes of K2 are there (the example history executes every task step at its due time) -/
-example : C07_bridgeTrace.map (fun tr => K2l Cfg.paper tr 3000) = some true := by decide
+example : C07_bridgeTrace.map (fun tr => K2 Cfg.paper tr 3000) = some true := by decide
+/-- … and the three announcements of K1 -/
+example : C07_bridgeTrace.map (fun tr => K1 Cfg.paper tr 3000) = some true := by decide
+
+/-- an `update` of a registered service: `upd` at 2000, announcements at 2000 / 2225 / 2450, K1 holds — and fails if the last
+announcement is not executed (the run is still a run of the machine: K1 needs `Fair`) -/
+def C07_bridgeExampleUpd (last : Bool) : Option (List Bridge.Step) :=
+  let s : Register.Svc :=
+    { type := "_http._tcp.local.", name := "svc._http._tcp.local.", server := "host.local.", port := 80, weight := 0, priority := 0,
+      text := [], v4 := [[10, 0, 0, 1]], v6 := [], hostTtl := 120, otherTtl := 4500 }
+  Bridge.mkRun id Goodbye.Host.init 0
+    ([(350, .register s 1 350), (350, .task 1 none true 350), (575, .task 1 none true 575), (800, .task 1 none true 800),
+      (2000, .update { s with port := 81 } 2 2000), (2000, .task 2 none true 2000), (2225, .task 2 none true 2225)]
+     ++ (if last then [(2450, .task 2 none true 2450)] else []))
+
+def C07_bridgeTraceUpd (last : Bool) : Option Trace :=
+  (C07_bridgeExampleUpd last).map fun steps => Bridge.events id ⟨0, String.length, String.length⟩ steps
+
+example : (C07_bridgeTraceUpd true).map upds = some [(2000, ⟨0, 17, 21⟩)] := by decide
+example : (C07_bridgeTraceUpd true).map (fun tr => K1 Cfg.paper tr 3000) = some true := by decide
+example : (C07_bridgeTraceUpd false).map (fun tr => K1 Cfg.paper tr 3000) = some false := by decide
 
 /-! ### non-vacuity: a concrete run satisfies every contract, and the conclusion is not trivial on it
 
